@@ -1,5 +1,7 @@
 (* FilterLaws.v -- algebraic laws of the filter combinators (filter.go:
-   FilterType / FilterOr / FilterAnd) as modelled by Types.flt_ok, the
+   FilterType / FilterOr / FilterAnd) as modelled by Types.flt_okv (filters over whole values:
+   name, type, subtype; FltName / FltSub are the tests a caller-written
+   FilterFunc can make on Value.Name / Value.Subtype), the
    definition the Redefine model and the correspondence check evaluate.
    They hold for every universe, every type and filter lists of any length
    and nesting depth.  Proof file: no definitions the model depends on. *)
@@ -11,87 +13,87 @@ Section FilterLaws.
   Variable u : universe.
 
   (* FilterOr() accepts nothing, FilterAnd() accepts everything *)
-  Lemma flt_or_nil t : flt_ok u (FltOr []) t = false.
+  Lemma flt_or_nil n t s : flt_okv u (FltOr []) n t s = false.
   Proof. reflexivity. Qed.
-  Lemma flt_and_nil t : flt_ok u (FltAnd []) t = true.
+  Lemma flt_and_nil n t s : flt_okv u (FltAnd []) n t s = true.
   Proof. reflexivity. Qed.
 
-  Lemma flt_or_cons f fs t :
-    flt_ok u (FltOr (f :: fs)) t = flt_ok u f t || flt_ok u (FltOr fs) t.
+  Lemma flt_or_cons f fs n t s :
+    flt_okv u (FltOr (f :: fs)) n t s = flt_okv u f n t s || flt_okv u (FltOr fs) n t s.
   Proof. reflexivity. Qed.
-  Lemma flt_and_cons f fs t :
-    flt_ok u (FltAnd (f :: fs)) t = flt_ok u f t && flt_ok u (FltAnd fs) t.
+  Lemma flt_and_cons f fs n t s :
+    flt_okv u (FltAnd (f :: fs)) n t s = flt_okv u f n t s && flt_okv u (FltAnd fs) n t s.
   Proof. reflexivity. Qed.
 
   (* a one-element combinator is its element *)
-  Lemma flt_or_single f t : flt_ok u (FltOr [f]) t = flt_ok u f t.
-  Proof. cbn [flt_ok existsb]. apply orb_false_r. Qed.
-  Lemma flt_and_single f t : flt_ok u (FltAnd [f]) t = flt_ok u f t.
-  Proof. cbn [flt_ok forallb]. apply andb_true_r. Qed.
+  Lemma flt_or_single f n t s : flt_okv u (FltOr [f]) n t s = flt_okv u f n t s.
+  Proof. cbn [flt_okv existsb]. apply orb_false_r. Qed.
+  Lemma flt_and_single f n t s : flt_okv u (FltAnd [f]) n t s = flt_okv u f n t s.
+  Proof. cbn [flt_okv forallb]. apply andb_true_r. Qed.
 
   (* concatenation of argument lists *)
-  Lemma flt_or_app fs gs t :
-    flt_ok u (FltOr (fs ++ gs)) t = flt_ok u (FltOr fs) t || flt_ok u (FltOr gs) t.
-  Proof. cbn [flt_ok]. apply existsb_app. Qed.
-  Lemma flt_and_app fs gs t :
-    flt_ok u (FltAnd (fs ++ gs)) t = flt_ok u (FltAnd fs) t && flt_ok u (FltAnd gs) t.
-  Proof. cbn [flt_ok]. apply forallb_app. Qed.
+  Lemma flt_or_app fs gs n t s :
+    flt_okv u (FltOr (fs ++ gs)) n t s = flt_okv u (FltOr fs) n t s || flt_okv u (FltOr gs) n t s.
+  Proof. cbn [flt_okv]. apply existsb_app. Qed.
+  Lemma flt_and_app fs gs n t s :
+    flt_okv u (FltAnd (fs ++ gs)) n t s = flt_okv u (FltAnd fs) n t s && flt_okv u (FltAnd gs) n t s.
+  Proof. cbn [flt_okv]. apply forallb_app. Qed.
 
   (* nesting flattens: FilterOr(FilterOr(fs...), gs...) = FilterOr(fs..., gs...) *)
-  Lemma flt_or_flatten fs gs t :
-    flt_ok u (FltOr (FltOr fs :: gs)) t = flt_ok u (FltOr (fs ++ gs)) t.
+  Lemma flt_or_flatten fs gs n t s :
+    flt_okv u (FltOr (FltOr fs :: gs)) n t s = flt_okv u (FltOr (fs ++ gs)) n t s.
   Proof. rewrite flt_or_cons, flt_or_app. reflexivity. Qed.
-  Lemma flt_and_flatten fs gs t :
-    flt_ok u (FltAnd (FltAnd fs :: gs)) t = flt_ok u (FltAnd (fs ++ gs)) t.
+  Lemma flt_and_flatten fs gs n t s :
+    flt_okv u (FltAnd (FltAnd fs :: gs)) n t s = flt_okv u (FltAnd (fs ++ gs)) n t s.
   Proof. rewrite flt_and_cons, flt_and_app. reflexivity. Qed.
 
   (* characterisation by membership: Or = some member accepts, And = all do *)
-  Lemma flt_or_spec fs t :
-    flt_ok u (FltOr fs) t = true <-> exists f, In f fs /\ flt_ok u f t = true.
-  Proof. cbn [flt_ok]. apply existsb_exists. Qed.
-  Lemma flt_and_spec fs t :
-    flt_ok u (FltAnd fs) t = true <-> forall f, In f fs -> flt_ok u f t = true.
-  Proof. cbn [flt_ok]. apply forallb_forall. Qed.
+  Lemma flt_or_spec fs n t s :
+    flt_okv u (FltOr fs) n t s = true <-> exists f, In f fs /\ flt_okv u f n t s = true.
+  Proof. cbn [flt_okv]. apply existsb_exists. Qed.
+  Lemma flt_and_spec fs n t s :
+    flt_okv u (FltAnd fs) n t s = true <-> forall f, In f fs -> flt_okv u f n t s = true.
+  Proof. cbn [flt_okv]. apply forallb_forall. Qed.
 
   (* the order and multiplicity of the arguments do not matter *)
-  Lemma flt_or_incl fs gs t :
-    incl fs gs -> flt_ok u (FltOr fs) t = true -> flt_ok u (FltOr gs) t = true.
+  Lemma flt_or_incl fs gs n t s :
+    incl fs gs -> flt_okv u (FltOr fs) n t s = true -> flt_okv u (FltOr gs) n t s = true.
   Proof.
     intros Hi H. apply flt_or_spec in H. destruct H as [f [Hf Hok]].
     apply flt_or_spec. exists f. split; [apply Hi; exact Hf | exact Hok].
   Qed.
-  Lemma flt_and_incl fs gs t :
-    incl fs gs -> flt_ok u (FltAnd gs) t = true -> flt_ok u (FltAnd fs) t = true.
+  Lemma flt_and_incl fs gs n t s :
+    incl fs gs -> flt_okv u (FltAnd gs) n t s = true -> flt_okv u (FltAnd fs) n t s = true.
   Proof.
     intros Hi H. apply flt_and_spec. intros f Hf.
-    apply (proj1 (flt_and_spec gs t) H). apply Hi. exact Hf.
+    apply (proj1 (flt_and_spec gs n t s) H). apply Hi. exact Hf.
   Qed.
 
   (* And is below each member, each member is below Or *)
-  Lemma flt_and_le f fs t :
-    In f fs -> flt_ok u (FltAnd fs) t = true -> flt_ok u f t = true.
-  Proof. intros Hf H. exact (proj1 (flt_and_spec fs t) H f Hf). Qed.
-  Lemma flt_le_or f fs t :
-    In f fs -> flt_ok u f t = true -> flt_ok u (FltOr fs) t = true.
+  Lemma flt_and_le f fs n t s :
+    In f fs -> flt_okv u (FltAnd fs) n t s = true -> flt_okv u f n t s = true.
+  Proof. intros Hf H. exact (proj1 (flt_and_spec fs n t s) H f Hf). Qed.
+  Lemma flt_le_or f fs n t s :
+    In f fs -> flt_okv u f n t s = true -> flt_okv u (FltOr fs) n t s = true.
   Proof. intros Hf H. apply flt_or_spec. exists f. split; assumption. Qed.
 
   (* absorption *)
-  Lemma flt_absorb_or_and f gs t :
-    flt_ok u (FltOr [f; FltAnd (f :: gs)]) t = flt_ok u f t.
+  Lemma flt_absorb_or_and f gs n t s :
+    flt_okv u (FltOr [f; FltAnd (f :: gs)]) n t s = flt_okv u f n t s.
   Proof.
-    cbn [flt_ok existsb forallb].
-    destruct (flt_ok u f t); cbn; [reflexivity|reflexivity].
+    cbn [flt_okv existsb forallb].
+    destruct (flt_okv u f n t s); cbn; [reflexivity|reflexivity].
   Qed.
-  Lemma flt_absorb_and_or f gs t :
-    flt_ok u (FltAnd [f; FltOr (f :: gs)]) t = flt_ok u f t.
+  Lemma flt_absorb_and_or f gs n t s :
+    flt_okv u (FltAnd [f; FltOr (f :: gs)]) n t s = flt_okv u f n t s.
   Proof.
-    cbn [flt_ok existsb forallb].
-    destruct (flt_ok u f t); cbn; [reflexivity|reflexivity].
+    cbn [flt_okv existsb forallb].
+    destruct (flt_okv u f n t s); cbn; [reflexivity|reflexivity].
   Qed.
 
   (* a type filter accepts its own type *)
-  Lemma flt_type_refl t : flt_ok u (FltType t) t = true.
-  Proof. cbn [flt_ok]. rewrite Z.eqb_refl. reflexivity. Qed.
+  Lemma flt_type_refl n t s : flt_okv u (FltType t) n t s = true.
+  Proof. cbn [flt_okv]. rewrite Z.eqb_refl. reflexivity. Qed.
 End FilterLaws.
 
 Print Assumptions flt_or_flatten.
@@ -106,6 +108,6 @@ Lemma redefine_or_nil_rejects u f d opts w t bo fld flds :
   exists r, redefine u f d opts w t = Ok (inr XFilterOut, r).
 Proof.
   intros Hb Hf Ho. unfold redefine. rewrite Hb, Hf, Ho.
-  cbn [forallb flt_ok existsb negb andb]. eexists. reflexivity.
+  cbn [forallb flt_okv existsb negb andb]. eexists. reflexivity.
 Qed.
 Print Assumptions redefine_or_nil_rejects.
